@@ -327,7 +327,7 @@ pub fn run(run: &Run) {
     });
 
     let wide = wide_pool();
-    let nr = run.opts.size(20_000, 1_500_000);
+    let nr = run.opts.size(200_000, 6_000_000);
     run.parallel("random", nr, |i, l| {
         let mut r = Rng::derive(seed, "c16-r", i);
         let len = r.range(6, 12);
